@@ -52,7 +52,47 @@ ALIASING.  Containers are translated as VALUES.  That is faithful as long as no 
   mutating one of the two while the other is still used afterwards is Untranslatable (`A.update(B)` with `B` possibly `A`
   itself is accepted: updating a dict with itself changes nothing, under both readings).  Declared assumption: distinct
   declared attributes / parameters hold distinct container objects.
-Totalisations: none — what Python raises is an `Except.error`."""
+  A mutable object read as a PART of another value (`x = d[k]`, `a, b = t`, a loop variable over a list / dict of
+  containers) may be that part itself: mutating it in place is refused; so is mutating an object after it was appended to a
+  list.  The one translated form of mutation through a loop variable is `for x in D.values(): x.method(...)` over a dict of
+  RECORDS (below): the mutated object is put back at its position.
+
+FURTHER spec keys and constructs (each rule is derived from the AST; what is not covered raises Untranslatable):
+  records        {name: dict(fields=[(attribute, type)], methods={method: callname})}: objects of a translated class held in
+                 variables / containers, type `rec:Name`, read as the tuple of their attribute values; `x.attr` is a component,
+                 `x.method(...)` runs the translated method on the components and re-binds the ones it assigns;
+  attrs          also declares attribute-like CELLS given by their source text, e.g. `GlobalCache()['xsec_path']` or
+                 `self._spec_dict['p']` (subscripts of objects the translation does not look into);
+  externals / obj_methods entries may carry `world='read'` (the world is their first argument) and `reads=[cells]`;
+  tvars          call=('make', [args], ret): calling a value of that type makes an object and changes the world
+                 (`x = c(*args)`: `let r := construct w c args; let w := r.1; let x := r.2`; a starred opaque pack is passed on);
+  expr_externals {source text of an expression: dict(lean=, ty=)} the value of that expression is a parameter;
+  pattern_externals [dict(rx= regex with groups a0, a1 …, lean=, args=, ret=, raises=)] an expression SHAPE that is an external
+                 function of the grouped sub-expressions (e.g. `u.Unit(x).to(u.Pa)`, `pathlib.Path(x).stem`);
+  ignore_stmts   regexes on the text of statements that have no effect the translation tracks (documented at the spec);
+  calls          {call text: callname} another receiver's method that is a translated function (its state cells are matched
+                 to this spec's declared cells by Lean name);
+  start_at / stop_at / free_locals  translate only a statement range of the function body (the statements before fill the
+                 declared cells / the `free_locals`, which become parameters; start_at may be (regex, occurrence));
+  total_index    list subscripts are TOTALISED (`getD` with the default 0 / [] / "" / tuple of defaults, `l[-1]` = `getLastD`,
+                 `a[idx]` for an index array = the elements at those positions): the hand-written models do the same and the
+                 tie theorems / callers guard the range; without it `l[i]` raises IndexError (`Py.lgetE`);
+  property       the function is a property: `self.name` without a call evaluates it.
+  Parameters of type `unit` are parameters the caller leaves None: they do not appear in the Lean signature, `x is None` on
+  them (and on values of types that have no None) is decided at translation time and only the live branch of an `if` exists.
+  `x = None` makes a local optional; None on one path and a value on another gives an `Option` after the `if`;
+  `if x is not None [and c]:` on an optional is `Option.elim`.
+  try: x = E1 except (C1, C2): x = E2  (one assignment each): `Py.caseE E1 (fun e => if e ∈ {C1, C2} then E2 else raise e) …`;
+  an `except C` clause catches the errors NAMED C (subclass relations are not modelled), a bare `except:` every error.
+  Numbers in containers: `[α]` is also a 1-D numpy array, `[[α]]` a 2-D one (list of rows): `a * c` / `c * a` (scalar broadcast,
+  `List.map`), `np.array(l)`, `a[:]`, `a[...]`, `a.astype(np.float64)` (the same numbers), `np.zeros_like`, `np.concatenate`
+  (`List.flatten`), `a.searchsorted(v[, side=])` (count of smaller [or equal] elements: numpy's result on a SORTED array),
+  `min(l)` / `max(l)` / `a.min()` / `a.max()` (`Py.minE` / `Py.maxE`: ValueError when empty; NaN not modelled), `x in l`
+  (IEEE `==` through `≤`), `l.sort([key=itemgetter(k)])` (`Py.sortOn`: a stable sort with `<`), `s.split('c')`, `s[k:]`,
+  calls of base-dialect kernels of the same file on arrays (element-wise, `List.zipWith`).
+Totalisations (Python raises or behaves differently): `a - b` on indices / counts is the truncated subtraction of `Nat` (a
+negative Python int is not represented); element-wise kernels on arrays of different lengths stop at the shorter one (numpy
+raises); subscripts under `total_index` (above).  Everything else that Python raises is an `Except.error`."""
 import ast
 import re
 
@@ -135,6 +175,8 @@ class TypeParser:
             return tv(w[1:])
         if w.startswith('enum:'):
             return ('enum', w[5:])
+        if w.startswith('rec:'):
+            return ('rec', w[4:])
         base = {'α': A, 'nat': NAT, 'bool': BOOL, 'str': STR, 'unit': UNIT}
         if w in base:
             return base[w]
@@ -144,7 +186,8 @@ class TypeParser:
 
 
 def is_container(t):
-    return t[0] in ('list', 'dict')
+    """types of MUTABLE Python objects (two names for one of them alias each other)"""
+    return t[0] in ('list', 'dict', 'rec')
 
 
 class R:
@@ -214,6 +257,16 @@ class PyFn(Fn):
         self.penums = dict(spec.get('enums', {}))
         self.refs = dict(spec.get('refs', {}))
         self.exc_classes = dict(EXC_CLASSES, **spec.get('exceptions', {}))
+        self.expr_externals = dict(spec.get('expr_externals', {}))   # whole expression text -> dict(lean=, ty=)
+        self.ignore_stmts = list(spec.get('ignore_stmts', ()))        # regexes on the text of statements without tracked effect
+        self.call_map = dict(spec.get('calls', {}))                   # call text -> callname of a translated function
+        self.pattern_externals = list(spec.get('pattern_externals', ()))  # dict(rx=regex with groups a0, a1…, lean=, args=, ret=, raises=)
+        self.start_at, self.stop_at = spec.get('start_at'), spec.get('stop_at')   # regexes: first / last translated statement
+        # records: objects of a translated class held in variables / containers, as the tuple of their attribute values:
+        # {name: dict(fields=[(attribute, type)], methods={method: callname of its translation})}
+        self.records = dict(spec.get('records', {}))
+        self.frozen = set()       # cells of loop variables that hold an element OF the iterated container: mutating one would
+        #                           mutate the container, which the translation (elements are values) does not show
         self.subst = {}
         self.nu = 0
         self.nfresh = 0
@@ -287,6 +340,8 @@ class PyFn(Fn):
             if t[1] not in self.used_tvars:
                 self.used_tvars.append(t[1])
             return t[1]
+        if k == 'rec':
+            return self.lty(self.rec_tuple(t[1]))
         if k == 'tuple':
             return '(' + ' × '.join(self.lty(x) for x in t[1]) + ')'
         if k == 'list':
@@ -296,6 +351,20 @@ class PyFn(Fn):
         if k == 'opt':
             return '(Option %s)' % self.lty(t[1])
         raise Untranslatable('no Lean type for %r' % (t,))
+
+    def rec_tuple(self, name):
+        if name not in self.records:
+            raise Untranslatable('undeclared record ' + name)
+        fs = [self.T(t) for _, t in self.records[name]['fields']]
+        return fs[0] if len(fs) == 1 else ('tuple', tuple(fs))
+
+    def rec_field(self, name, attr):
+        """(index, number of fields, type) of an attribute of a record"""
+        fields = self.records[name]['fields']
+        for i, (a, t) in enumerate(fields):
+            if a == attr:
+                return i, len(fields), self.T(t)
+        return None
 
     def fill(self, text):
         """substitute the type placeholders"""
@@ -333,6 +402,12 @@ class PyFn(Fn):
             if want[0] == 'u':
                 self.fail(node, 'integer literal whose type is not fixed by its context')
             self.fail(node, 'integer literal where %s is needed' % self.show(want))
+        have = self.resolve(r.ty)
+        if want[0] == 'opt' and have[0] not in ('opt', 'u') and have != UNIT:
+            self.unify(want[1], have, node)
+            return R('(some %s)' % r.txt, want, r.binds)
+        if want[0] == 'opt' and have == UNIT:
+            return R('none', want, r.binds)
         self.unify(r.ty, want, node)
         return r
 
@@ -350,11 +425,30 @@ class PyFn(Fn):
         """the environment key of a variable-like expression (a name or a declared attribute), else None"""
         if isinstance(node, ast.Name):
             return node.id
-        if isinstance(node, ast.Attribute):
+        if isinstance(node, (ast.Attribute, ast.Subscript)):
             t = ast.unparse(node)
             if t in self.pattrs:
-                return t
+                return t                                   # (also a declared cell such as `GlobalCache()['xsec_path']`)
         return None
+
+    def known_of(self, text):
+        """the translated py-dialect function a call text refers to (spec `calls` maps other receivers to a callname)"""
+        name = self.call_map.get(text, text)
+        k = self.known.get(name)
+        return k if (k is not None and 'py' in k) else None
+
+    def map_state(self, sig):
+        """the caller's keys of the state cells of a callee (same attribute text, else the declared cell with the same Lean name)"""
+        out = []
+        for key, lean in sig['state_cells']:
+            if key in self.pattrs and self.pattrs[key][0] == lean:
+                out.append(key)
+                continue
+            hits = [k for k, (nm, _) in self.pattrs.items() if nm == lean]
+            if len(hits) != 1:
+                raise Untranslatable('%s: the callee assigns %s (%s), which this spec does not declare' % (self.spec['func'], key, lean))
+            out.append(hits[0])
+        return out
 
     def world_var(self):
         if not self.world:
@@ -362,6 +456,21 @@ class PyFn(Fn):
         nm, tvn = self.world
         self.add_param(nm, self.lty(tv(tvn)))
         return nm
+
+    def ext_prefix(self, d, env, node):
+        """the leading arguments of a declared external / object method: the world it reads (`world='read'`) and the declared
+        cells it reads (`reads=[…]`: attribute-like cells such as `GlobalCache()['xsec_path']`); (texts, Lean types)"""
+        txts, tys = [], []
+        if d.get('world') == 'read':
+            txts.append(self.world_var())
+            tys.append(self.lty(tv(self.world[1])))
+        for k in d.get('reads', ()):
+            v = env.get(k) or self.lookup(k, env, node)
+            if v is None:
+                self.fail(node, 'the cell %s is not declared' % k)
+            txts.append(v.cell)
+            tys.append(self.lty(v.ty))
+        return txts, tys
 
     # ------------------------------------------------------------------ sequencing of raising sub-expressions
     def seq(self, rs, build, ty, raises_result=False):
@@ -399,7 +508,36 @@ class PyFn(Fn):
             self.fail(node, 'an expression that may raise is used where the translator cannot sequence it')
         return r
 
+    def pattern_external(self, node, env):
+        """an expression shape declared as an external (`pattern_externals`): the regex groups a0, a1, … are its argument
+        expressions; the value is the declared function parameter applied to them"""
+        text = ast.unparse(node)
+        for d in self.pattern_externals:
+            mm = re.fullmatch(d['rx'], text)
+            if mm:
+                ats = [self.T(t) for t in d['args']]
+                rt = self.T(d['ret'])
+                rs = [self.expr(ast.parse(mm.group('a%d' % i), mode='eval').body, env, t) for i, t in enumerate(ats)]
+                raises = bool(d.get('raises'))
+                rtxt = ('(Except Py.Err %s)' % self.lty(rt)) if raises else self.lty(rt)
+                self.add_param(d['lean'], ' → '.join([self.lty(t) for t in ats] + [rtxt]))
+                if raises:
+                    self.raise_points += 1
+                return self.seq(rs, lambda a: '(%s %s)' % (d['lean'], ' '.join(a)) if a else d['lean'], rt, raises_result=raises)
+        return None
+
     def expr0(self, node, env, want):
+        if self.pattern_externals and not isinstance(node, (ast.Constant, ast.Name)):
+            r = self.pattern_external(node, env)
+            if r is not None:
+                return r
+        if self.expr_externals and not isinstance(node, (ast.Constant, ast.Name)):
+            t = ast.unparse(node)
+            if t in self.expr_externals:
+                d = self.expr_externals[t]                 # the value of this expression is a parameter
+                ty = self.T(d['ty'])
+                self.add_param(d['lean'], self.lty(ty))
+                return R(d['lean'], ty)
         if isinstance(node, ast.Constant):
             v = node.value
             if v is None:
@@ -447,6 +585,9 @@ class PyFn(Fn):
                 return self.ref_read(node, env)
             base = self.expr(node.value, env)
             bt = self.resolve(base.ty)
+            if bt[0] == 'rec' and self.rec_field(bt[1], node.attr) is not None:
+                i, n, ft = self.rec_field(bt[1], node.attr)
+                return self.seq([base], lambda a: self.proj(a[0], i, n), ft)
             if bt[0] == 'tv' and node.attr in self.obj_attrs.get(bt[1], {}):
                 d = self.obj_attrs[bt[1]][node.attr]
                 rt = self.T(d['ty'])
@@ -487,6 +628,16 @@ class PyFn(Fn):
             self.fail(node, 'unsupported unary operator')
         if isinstance(node, ast.BinOp):
             return self.binop(node, env, want)
+        if isinstance(node, ast.BoolOp) and isinstance(node.op, ast.Or) and len(node.values) == 2:
+            l = self.expr(node.values[0], env)
+            lt = self.resolve(l.ty)
+            if lt == ('opt', STR):
+                # `x or default` for an optional string: the default replaces None and the empty string
+                r = self.expr(node.values[1], env, STR)
+                if r.raises:
+                    self.fail(node, 'a short-circuited operand that may raise')
+                return self.seq([l, r], lambda a: '(Option.elim %s %s (fun v__ => if decide (v__ = "") then %s else v__))'
+                                % (a[0], a[1], a[1]), STR)
         if isinstance(node, ast.BoolOp):
             rs = [self.truth(v, env) for v in node.values]
             if any(r.raises for r in rs[1:]):
@@ -563,6 +714,10 @@ class PyFn(Fn):
             return self.seq([l, r], lambda a: '(%s %s %s)' % (a[0], op, a[1]), NAT)
         if lt == rt == STR and op == '+':
             return self.seq([l, r], lambda a: '(%s ++ %s)' % (a[0], a[1]), STR)
+        if lt == ('list', A) and rt == A:                  # numpy: the scalar is broadcast
+            return self.seq([l, r], lambda a: '(List.map (fun x__ => (x__ %s %s)) %s)' % (op, a[1], a[0]), lt)
+        if lt == A and rt == ('list', A):
+            return self.seq([l, r], lambda a: '(List.map (fun x__ => (%s %s x__)) %s)' % (a[0], op, a[1]), rt)
         if lt[0] == rt[0] == 'list' and op == '+':
             ty = self.unify(lt, rt, node)
             return self.seq([l, r], lambda a: '(%s ++ %s)' % (a[0], a[1]), ty)
@@ -657,7 +812,20 @@ class PyFn(Fn):
             return
         self.fail(node, 'equality on %s' % self.show(t))
 
+    def is_num_array(self, t):
+        t = self.resolve(t)
+        while t[0] == 'list':
+            t = self.resolve(t[1])
+        return t == A
+
     def subscript(self, node, env):
+        if self.key_of(node) is None and (isinstance(node.slice, ast.Constant) and node.slice.value is Ellipsis
+                                          or isinstance(node.slice, ast.Slice) and node.slice.lower is None
+                                          and node.slice.upper is None and node.slice.step is None
+                                          or isinstance(node.slice, ast.Tuple) and not node.slice.elts):
+            r = self.expr(node.value, env)
+            if self.resolve(r.ty)[0] == 'list' or self.resolve(r.ty) in (A, NAT):
+                return r                                   # a[:], a[...], a[()]: all the elements (a copy / the array read from its container)
         if isinstance(node.value, ast.Attribute) and node.value.attr == 'shape' and isinstance(node.slice, ast.Constant) \
                 and node.slice.value == 0:
             r = self.expr(node.value.value, env)
@@ -667,6 +835,9 @@ class PyFn(Fn):
         base = self.expr(node.value, env)
         bt = self.resolve(base.ty)
         idx = node.slice
+        if bt == STR and isinstance(idx, ast.Slice) and idx.upper is None and idx.step is None \
+                and isinstance(idx.lower, ast.Constant) and isinstance(idx.lower.value, int) and idx.lower.value >= 0:
+            return self.seq([base], lambda a: '(Py.strDrop %d %s)' % (idx.lower.value, a[0]), STR)
         if bt[0] == 'tuple':
             n = len(bt[1])
             i = None
@@ -686,6 +857,11 @@ class PyFn(Fn):
         if bt[0] == 'list' and self.spec.get('total_index'):
             # TOTALISED (spec `total_index`): an out-of-range index gives the default of the element type instead of IndexError
             d = self.default(bt[1], node)
+            ik = self.key_of(idx)
+            iv = (env.get(ik) or self.lookup(ik, env)) if ik else None
+            if iv is not None and self.resolve(iv.ty) == ('list', NAT):
+                # a[idx] for an index array: the elements at those positions, in that order
+                return self.seq([base], lambda a: '(List.map (fun i__ => (%s).getD i__ %s) %s)' % (a[0], d, iv.cell), bt)
             if isinstance(idx, ast.UnaryOp) and isinstance(idx.op, ast.USub) and isinstance(idx.operand, ast.Constant) \
                     and idx.operand.value == 1:
                 return self.seq([base], lambda a: '((%s).getLastD %s)' % (a[0], d), bt[1])
@@ -707,6 +883,8 @@ class PyFn(Fn):
             return '0'
         if t[0] in ('list', 'dict'):
             return '[]'
+        if t[0] == 'rec':
+            return self.default(self.rec_tuple(t[1]), node)
         if t[0] == 'tuple':
             return '(' + ', '.join(self.default(x, node) for x in t[1]) + ')'
         if t == STR:
@@ -740,6 +918,24 @@ class PyFn(Fn):
         return f + '()'
 
     def call(self, node, env, want=None):
+        for d in ():
+            mm = None
+            if mm:
+                # a call shape declared as an external: the groups a0, a1, … are its argument expressions
+                ats = [self.T(t) for t in d['args']]
+                rt = self.T(d['ret'])
+                rs = [self.expr(ast.parse(mm.group('a%d' % i), mode='eval').body, env, t) for i, t in enumerate(ats)]
+                raises = bool(d.get('raises'))
+                rtxt = ('(Except Py.Err %s)' % self.lty(rt)) if raises else self.lty(rt)
+                self.add_param(d['lean'], ' → '.join([self.lty(t) for t in ats] + [rtxt]))
+                if raises:
+                    self.raise_points += 1
+                return self.seq(rs, lambda a: '(%s %s)' % (d['lean'], ' '.join(a)) if a else d['lean'], rt, raises_result=raises)
+        if isinstance(node.func, ast.Attribute) and node.func.attr == 'astype' and len(node.args) == 1 and not node.keywords \
+                and ast.unparse(node.args[0]) in ('np.float64', 'numpy.float64', 'float'):
+            r = self.expr(node.func.value, env)
+            if self.is_num_array(r.ty):
+                return r                                   # the numbers of an array of floats, as floats
         f = ast.unparse(node.func)
         node = self.expand_star(node, env)
         if any(isinstance(a, ast.Starred) for a in node.args) or any(k.arg is None for k in node.keywords):
@@ -755,10 +951,12 @@ class PyFn(Fn):
             rs = [self.expr(a, env, t) for a, t in zip(argn, ats)]
             raises = bool(d.get('raises'))
             rtxt = ('(Except Py.Err %s)' % self.lty(rt)) if raises else self.lty(rt)
-            self.add_param(d['lean'], ' → '.join([self.lty(t) for t in ats] + [rtxt]))
+            ptx, pty = self.ext_prefix(d, env, node)
+            self.add_param(d['lean'], ' → '.join(pty + [self.lty(t) for t in ats] + [rtxt]))
             if raises:
                 self.raise_points += 1
-            return self.seq(rs, lambda a: '(%s %s)' % (d['lean'], ' '.join(a)) if a else d['lean'], rt, raises_result=raises)
+            return self.seq(rs, lambda a: '(%s %s)' % (d['lean'], ' '.join(ptx + a)) if (a or ptx) else d['lean'], rt,
+                            raises_result=raises)
         if f == 'len' and len(node.args) == 1 and not node.keywords:
             r = self.expr(node.args[0], env)
             t = self.resolve(r.ty)
@@ -770,6 +968,12 @@ class PyFn(Fn):
             if self.resolve(r.ty)[0] != 'list':
                 self.fail(node, 'np.array of a %s' % self.show(r.ty))
             return r                                      # a 1-D array is modelled as the list of its elements
+        if f in ('np.concatenate', 'numpy.concatenate') and len(node.args) == 1 and not node.keywords:
+            r = self.expr(node.args[0], env)
+            t = self.resolve(r.ty)
+            if t[0] != 'list' or self.resolve(t[1])[0] != 'list':
+                self.fail(node, 'np.concatenate of a %s' % self.show(t))
+            return self.seq([r], lambda a: '(List.flatten %s)' % a[0], self.resolve(t[1]))   # 1-D arrays joined in order
         if f in ('np.zeros_like', 'numpy.zeros_like') and len(node.args) == 1 and not node.keywords:
             r = self.expr(node.args[0], env)
             if self.resolve(r.ty) != ('list', A):
@@ -804,8 +1008,8 @@ class PyFn(Fn):
             if t[0] != f:
                 self.fail(node, '%s() of a %s' % (f, self.show(t)))
             return R(r.txt, t, r.binds)                   # a copy: the same value, a new object
-        if f in self.known and 'py' in self.known[f]:
-            return self.call_known(node, env, self.known[f], stmt=False)[0]
+        if self.known_of(f) is not None:
+            return self.call_known(node, env, self.known_of(f), stmt=False)[0]
         if isinstance(node.func, ast.Attribute):
             recv = node.func.value
             m = node.func.attr
@@ -823,6 +1027,11 @@ class PyFn(Fn):
                 v = self.expr(node.args[0], env, A)
                 fnm = 'Py.searchsortedRight' if side == 'right' else 'Py.searchsortedLeft'
                 return self.seq([base, v], lambda a: '(%s %s %s)' % (fnm, a[0], a[1]), NAT)
+            if bt == STR and m == 'split' and len(node.args) == 1 and not node.keywords \
+                    and isinstance(node.args[0], ast.Constant) and isinstance(node.args[0].value, str) \
+                    and len(node.args[0].value) == 1 and 32 < ord(node.args[0].value) < 127 and node.args[0].value not in "'\\":
+                sep = node.args[0].value
+                return self.seq([base], lambda a: "(Py.split1 '%s' %s)" % (sep, a[0]), ('list', STR))
             if bt == STR and m == 'lower' and not node.args and not node.keywords:
                 return self.seq([base], lambda a: '(Py.lower %s)' % a[0], STR)
             if bt[0] == 'tv' and m in self.obj_methods.get(bt[1], {}):
@@ -832,8 +1041,9 @@ class PyFn(Fn):
                     self.fail(node, 'method call does not match its declared arguments')
                 rt = self.T(d['ret'])
                 rs = [self.expr(a, env, t) for a, t in zip(node.args, ats)]
-                self.add_param(d['lean'], ' → '.join([self.lty(bt)] + [self.lty(t) for t in ats] + [self.lty(rt)]))
-                return self.seq([base] + rs, lambda a: '(%s %s)' % (d['lean'], ' '.join(a)), rt)
+                ptx, pty = self.ext_prefix(d, env, node)
+                self.add_param(d['lean'], ' → '.join(pty + [self.lty(bt)] + [self.lty(t) for t in ats] + [self.lty(rt)]))
+                return self.seq([base] + rs, lambda a: '(%s %s)' % (d['lean'], ' '.join(ptx + a)), rt)
             self.fail(node, 'unsupported method call')
         # a callable VALUE (of a type variable declared with `call=`)
         fn = self.expr(node.func, env)
@@ -906,6 +1116,9 @@ class PyFn(Fn):
                 k = self.key_of(a.value)
                 v = env.get(k) if k else None
                 t = self.resolve(v.ty) if v else None
+                if t is not None and t[0] == 'tv':
+                    args.append(a.value)                   # an opaque argument pack: passed on as it is
+                    continue
                 if t is None or t[0] != 'tuple':
                     self.fail(c, 'a starred argument that is not a tuple variable')
                 for i in range(len(t[1])):
@@ -970,6 +1183,10 @@ class PyFn(Fn):
             if target.id == '_':
                 return ''
             cell = self.new_cell(target.id, env)
+            old = env.get(target.id)
+            if old is not None and self.resolve(old.ty)[0] == 'opt' and self.resolve(old.ty)[1][0] == 'u' and ty[0] != 'opt' \
+                    and ty[0] != 'u':
+                self.unify(self.resolve(old.ty)[1], ty, target)   # `x = None` earlier: x is an optional of this type
             env[target.id] = Var(cell, ty)
             if src in ('[]', 'none'):
                 return '%slet %s : %s := %s\n' % (ind, cell, self.lty(ty), src)
@@ -996,6 +1213,25 @@ class PyFn(Fn):
                 out += self.bind_target(e, self.proj(src, i, len(target.elts)), ty[1][i], env, ind)
             return out
         self.fail(target, 'unsupported assignment target')
+
+    def root_cell(self, node, env):
+        """the cell of the variable / declared attribute an expression reads a PART of (x[i], x.field, x[i][j] …), else None"""
+        while isinstance(node, (ast.Subscript, ast.Attribute)) and self.key_of(node) is None:
+            node = node.value
+        k = self.key_of(node)
+        v = (env.get(k) or self.lookup(k, env)) if k else None
+        return v.cell if v is not None else None
+
+    def share(self, name, node, env):
+        """after `name = <node>`: if the value is a mutable object that is a part of (or is) another variable's value, the two
+        may be the same object — a later in-place mutation of `name` is then refused (the translation copies values)"""
+        v = env.get(name)
+        if v is None or not is_container(self.resolve(v.ty)):
+            return
+        if isinstance(node, (ast.Subscript, ast.Attribute, ast.Name)):
+            rc = self.root_cell(node, env)
+            if rc is not None and rc != v.cell:
+                env[name] = Var(v.cell, v.ty, v.alias | frozenset([rc]))
 
     def new_cell(self, name, env):
         """the Lean variable for a (re)bound local; a container shared with another name must not be rebound under the same cell"""
@@ -1067,6 +1303,8 @@ class PyFn(Fn):
         v = env[key] if key in env else self.lookup(key, env)
         if v is None:
             self.fail(stmt, 'mutation of an unknown variable')
+        if v.cell in self.frozen:
+            self.fail(stmt, 'mutation of `%s`, an element of the container the loop runs over' % key)
         if v.alias:
             self.fail(stmt, 'mutation of `%s`, which may be the same object as %s' % (key, sorted(v.alias)))
         if key in self.pattrs and key not in self.state:
@@ -1094,6 +1332,8 @@ class PyFn(Fn):
             if isinstance(t, (ast.Tuple, ast.List)):
                 for e in t.elts:
                     target(e)
+            elif isinstance(t, ast.Subscript) and self.key_of(t) is not None:
+                add(self.key_of(t))
             elif isinstance(t, ast.Subscript):
                 add(self.key_of(t.value) if not self.is_ref_attr(t.value, env) else None)
                 for k in self.ref_attr_keys(t.value, env):
@@ -1101,6 +1341,8 @@ class PyFn(Fn):
             else:
                 add(self.key_of(t))
         for s in stmts:
+            if self.ignore_stmts and any(re.fullmatch(rx, ast.unparse(s), re.S) for rx in self.ignore_stmts):
+                continue
             if isinstance(s, ast.Assign):
                 for t in s.targets:
                     target(t)
@@ -1121,16 +1363,26 @@ class PyFn(Fn):
             elif isinstance(s, ast.If):
                 for k in self.assigned(s.body, env) + self.assigned(s.orelse, env):
                     add(k)
+            elif isinstance(s, ast.Try):
+                for k in self.assigned(list(s.body) + [x for h in s.handlers for x in h.body], env):
+                    add(k)
         return out
 
     def call_effects(self, c, env, add):
         f = ast.unparse(c.func)
-        if f in self.known and 'py' in self.known[f]:
-            sig = self.known[f]['py']
+        if isinstance(c.func, ast.Attribute) and isinstance(c.func.value, ast.Name) and self.records:
+            # a method of an object held as a record (the receiver may be a loop variable that is not bound yet)
+            for rn, rd in self.records.items():
+                cn = rd.get('methods', {}).get(c.func.attr)
+                k = self.known.get(cn) if cn else None
+                if k is not None and 'py' in k and k['py']['state_cells'] and self.known_of(f) is None:
+                    add(c.func.value.id)
+        if self.known_of(f) is not None:
+            sig = self.known_of(f)['py']
             for pn, a in self.bind_args(c, sig):
                 if pn in sig['mutates']:
                     add(self.key_of(a))
-            for k in sig['state']:
+            for k in self.map_state(sig):
                 add(k)
             if sig['writes_world']:
                 add('$world')
@@ -1141,7 +1393,8 @@ class PyFn(Fn):
             add('$world')                                  # a local not bound yet (e.g. unpacked in the loop body): may write
         if v is not None:
             t = self.resolve(v.ty)
-            if t[0] == 'tv' and isinstance(self.tvars.get(t[1]), dict) and self.tvars[t[1]].get('call', ('',))[0] == 'write':
+            if t[0] == 'tv' and isinstance(self.tvars.get(t[1]), dict) \
+                    and self.tvars[t[1]].get('call', ('',))[0] in ('write', 'make'):
                 add('$world')
 
     def is_ref_attr(self, node, env):
@@ -1166,8 +1419,12 @@ class PyFn(Fn):
             pairs.append((k.arg, k.value))
             seen.add(k.arg)
         for p, t in sig['params']:
-            if p not in seen and t != 'skip':
+            if p not in seen and t != 'skip' and t != UNIT:
                 self.fail(c, 'argument %s is not given (defaults are not translated)' % p)
+        for p, a in pairs:
+            t = dict(sig['params'])[p]
+            if t == UNIT and not (isinstance(a, ast.Constant) and a.value is None):
+                self.fail(c, 'the translated function is specialised to %s=None' % p)
         order = {p: i for i, p in enumerate(names)}
         return sorted(pairs, key=lambda pa: order[pa[0]])
 
@@ -1193,6 +1450,8 @@ class PyFn(Fn):
             return cont(env)
         if isinstance(s, ast.Expr) and isinstance(s.value, ast.Call) and re.search(self.ignore_calls, ast.unparse(s.value)):
             return cont(env)
+        if self.ignore_stmts and any(re.fullmatch(rx, ast.unparse(s), re.S) for rx in self.ignore_stmts):
+            return cont(env)                               # declared: no effect the translation tracks
         if isinstance(s, ast.Return):
             return ctx.ret(s.value, env, ind)
         if isinstance(s, ast.Raise):
@@ -1207,11 +1466,56 @@ class PyFn(Fn):
             return self.assign(s, s.targets[0], s.value, env, ctx, ind, cont)
         if isinstance(s, ast.Expr) and isinstance(s.value, ast.Call):
             return self.call_stmt(s, s.value, None, env, ctx, ind, cont)
+        if isinstance(s, ast.Try):
+            return self.try_stmt(s, env, ctx, ind, cont)
         if isinstance(s, ast.If):
             return self.if_stmt(s, env, ctx, ind, cont)
         if isinstance(s, ast.For):
             return self.for_stmt(s, env, ctx, ind, cont)
         self.fail(s, 'unsupported statement')
+
+    def try_stmt(self, s, env, ctx, ind, cont):
+        """try: x = E1  except (C1, C2): x = E2   (one assignment to the same local name in the body and in every handler; no
+        else / finally).  An `except C` clause catches the errors NAMED C (subclass relations between exception classes are not
+        modelled); a bare `except:` catches every error."""
+        def one_assign(stmts):
+            return len(stmts) == 1 and isinstance(stmts[0], ast.Assign) and len(stmts[0].targets) == 1 \
+                and isinstance(stmts[0].targets[0], ast.Name)
+        if s.orelse or s.finalbody or not one_assign(s.body) or not all(one_assign(h.body) for h in s.handlers) \
+                or len(s.handlers) != 1:
+            self.fail(s, 'unsupported try statement')
+        name = s.body[0].targets[0].id
+        h = s.handlers[0]
+        if h.body[0].targets[0].id != name or h.name is not None:
+            self.fail(s, 'the handler does not assign the same variable')
+        e1 = self.expr(s.body[0].value, env)
+        if not e1.raises:
+            return self.assign(s.body[0], s.body[0].targets[0], s.body[0].value, env, ctx, ind, cont)
+        e2 = self.expr(h.body[0].value, env, e1.ty)
+        ty = self.unify(e1.ty, e2.ty, s)
+        if h.type is None:
+            caught = 'true'
+        else:
+            classes = h.type.elts if isinstance(h.type, ast.Tuple) else [h.type]
+            names = []
+            for c in classes:
+                n = ast.unparse(c)
+                names.append(self.exc_classes[n] if n in self.exc_classes else '(Py.Err.other "%s")' % n.split('.')[-1])
+            caught = '(' + ' || '.join('decide (e__ = %s)' % n for n in names) + ')'
+        v = self.fresh()
+        if h.type is None:
+            term = '(Py.caseE %s (fun e__ => %s) (fun %s => Except.ok %s))' % (self.materialise(e1), self.materialise(e2), v, v)
+        else:
+            term = '(Py.caseE %s (fun e__ => if %s then %s else Except.error e__) (fun %s => Except.ok %s))' % (
+                self.materialise(e1), caught, self.materialise(e2), v, v)
+        self.raise_points += 1
+        w = self.fresh()
+        r = R(w, ty, [(w, term)])
+
+        def use(txt, env2, ind2):
+            env2 = dict(env2)
+            return self.bind_target(s.body[0].targets[0], txt, ty, env2, ind2) + cont(env2, ind2)
+        return self.bind_value(r, ctx, env, ind, use)
 
     def exc_text(self, s):
         if s.exc is None or s.cause is not None:
@@ -1240,8 +1544,16 @@ class PyFn(Fn):
     def assign(self, s, target, value, env, ctx, ind, cont):
         env = dict(env)
         # d[k] = v
-        if isinstance(target, ast.Subscript):
+        if isinstance(target, ast.Subscript) and self.key_of(target) is None:
             return self.store(s, target, value, env, ctx, ind, cont)
+        # x = None for a local: an optional value
+        if isinstance(target, ast.Name) and isinstance(value, ast.Constant) and value.value is None:
+            cell = self.new_cell(target.id, env)
+            old = env.get(target.id)
+            ot = self.resolve(old.ty) if old is not None else None
+            ty = ot if (ot and ot[0] == 'opt') else ('opt', ot if (ot and ot[0] != 'u' and ot != UNIT) else self.newu())
+            env[target.id] = Var(cell, ty)
+            return '%slet %s : %s := none\n' % (ind, cell, self.lty(ty)) + cont(env)
         # x = p or {}   (p an in/out dict parameter): the two aliasing cases
         if isinstance(target, ast.Name) and isinstance(value, ast.BoolOp) and isinstance(value.op, ast.Or) \
                 and len(value.values) == 2 and isinstance(value.values[0], ast.Name) \
@@ -1281,9 +1593,21 @@ class PyFn(Fn):
                 env[target.id] = Var(v.cell, v.ty, v.alias)
                 return cont(env)
         # targets = translated_function(...)
-        if isinstance(value, ast.Call) and ast.unparse(value.func) in self.known \
-                and 'py' in self.known[ast.unparse(value.func)]:
+        if isinstance(value, ast.Call) and (self.known_of(ast.unparse(value.func)) is not None
+                                            or self.rec_call(value, env) is not None):
             return self.call_stmt(s, value, target, env, ctx, ind, cont)
+        # x = f(args) for a callable VALUE that makes an object and changes the world ('make')
+        if isinstance(value, ast.Call):
+            mk = self.make_call(s, value, env)
+            if mk is not None:
+                allr, rt = mk
+
+                def use_mk(txt, env2, ind2):
+                    env2 = dict(env2)
+                    r = self.fresh('r')
+                    out = '%slet %s := %s\n%slet %s := %s.1\n' % (ind2, r, txt, ind2, self.world_var(), r)
+                    return out + self.bind_target(target, r + '.2', rt, env2, ind2) + cont(env2, ind2)
+                return self.bind_value(allr, ctx, env, ind, use_mk)
         want = None
         k = self.key_of(target)
         if k is not None and k in self.pattrs:
@@ -1295,6 +1619,12 @@ class PyFn(Fn):
         def use(txt, env2, ind2):
             env2 = dict(env2)
             lets = self.bind_target(target, txt, r.ty, env2, ind2)
+            if isinstance(target, ast.Name):
+                self.share(target.id, value, env2)
+            elif isinstance(target, (ast.Tuple, ast.List)) and isinstance(value, (ast.Name, ast.Attribute, ast.Subscript)):
+                for e in target.elts:
+                    if isinstance(e, ast.Name) and e.id in env2:
+                        self.share(e.id, value, env2)
             return lets + cont(env2, ind2)
         return self.bind_value(r, ctx, env, ind, use)
 
@@ -1375,6 +1705,10 @@ class PyFn(Fn):
             if m == 'append' and t[0] == 'list':
                 a = self.expr(c.args[0], env, t[1])
                 new = lambda x: '(%s ++ [%s])' % (v.cell, x)
+                for nm in self.names_in([c.args[0]]):
+                    if nm in env and is_container(self.resolve(env[nm].ty)) and env[nm].cell != v.cell:
+                        # the object is now ALSO reachable through the list: a later mutation of it is refused
+                        env[nm] = Var(env[nm].cell, env[nm].ty, env[nm].alias | frozenset([v.cell]))
             elif m == 'extend' and t[0] == 'list':
                 a = self.expr(c.args[0], env, t)
                 new = lambda x: '(%s ++ %s)' % (v.cell, x)
@@ -1390,8 +1724,11 @@ class PyFn(Fn):
                 env2[key] = Var(v.cell, v.ty, v.alias)
                 return '%slet %s := %s\n' % (ind2, v.cell, new(txt)) + cont(env2, ind2)
             return self.bind_value(a, ctx, env, ind, use)
+        rc = self.rec_call(c, env)
+        if rc is not None:
+            return self.rec_call_stmt(s, c, target, rc, env, ctx, ind, cont)
         # a translated function
-        if f in self.known and 'py' in self.known[f]:
+        if self.known_of(f) is not None:
             return self.call_known_stmt(s, c, target, env, ctx, ind, cont)
         # a 'write' callable value
         if target is None:
@@ -1417,12 +1754,103 @@ class PyFn(Fn):
             self.fail(s, 'unsupported call statement')
         self.fail(s, 'unsupported assignment')
 
-    def call_text(self, c, sig, env):
-        """(Lean text of the call, [(param, argument key)] of the in/out arguments)"""
+    def make_call(self, s, c, env):
+        c = self.expand_star(c, env)
+        k = self.key_of(c.func)
+        v = env.get(k) if k else None
+        if v is None:
+            return None
+        ft = self.resolve(v.ty)
+        if not (ft[0] == 'tv' and isinstance(self.tvars.get(ft[1]), dict) and self.tvars[ft[1]].get('call', ('',))[0] == 'make'):
+            return None
+        d = self.tvars[ft[1]]
+        ats = [self.T(t) for t in d['call'][1]]
+        rt = self.T(d['call'][2])
+        if len(c.args) != len(ats) or c.keywords:
+            self.fail(s, 'call of a callable value does not match its declared arguments')
+        if not self.writes_world:
+            self.fail(s, "a 'make' callable is called but the spec does not declare writes_world")
+        rs = [self.expr(a, env, t) for a, t in zip(c.args, ats)]
+        w = self.world_var()
+        wt = self.lty(tv(self.world[1]))
+        self.add_param(d['lean'], ' → '.join([wt, self.lty(ft)] + [self.lty(t) for t in ats] + ['(%s × %s)' % (wt, self.lty(rt))]))
+        allr = self.seq([R(v.cell, ft)] + rs, lambda a: '(%s %s %s)' % (d['lean'], w, ' '.join(a)), ('tuple', (tv(self.world[1]), rt)))
+        return allr, rt
+
+    def rec_call(self, c, env):
+        """X.m(…) for a variable X that holds a record whose method m is translated: (name of X, record name, known entry)"""
+        if isinstance(c.func, ast.Attribute) and isinstance(c.func.value, ast.Name):
+            v = env.get(c.func.value.id)
+            t = self.resolve(v.ty) if v is not None else None
+            if t is not None and t[0] == 'rec':
+                cn = self.records[t[1]].get('methods', {}).get(c.func.attr)
+                k = self.known.get(cn) if cn else None
+                if k is not None and 'py' in k:
+                    return c.func.value.id, t[1], k
+        return None
+
+    def rec_call_stmt(self, s, c, target, rc, env, ctx, ind, cont):
+        """a call statement of a translated method on an object held as a record: the attributes the method reads are the
+        components of the record, the attributes it assigns are re-bound in the record"""
+        c = self.expand_star(c, env)
+        name, recname, known = rc
+        sig = known['py']
+        if sig['mutates'] or sig['writes_world']:
+            self.fail(s, 'a method with in/out parameters or world effects called on a record')
+        v = env[name]
+        if v.alias:
+            self.fail(s, 'mutation of `%s`, which may be the same object as %s' % (name, sorted(v.alias)))
+        if v.cell in self.frozen and sig['state_cells']:
+            self.fail(s, 'mutation of `%s`, an element of the container the loop runs over (only `for x in D.values()` '
+                         'mutating x itself is translated)' % name)
+        txt, _ = self.call_text(c, sig, env, recv=(v.cell, recname))
+        if sig['can_raise']:
+            self.raise_points += 1
+        nfields = len(self.records[recname]['fields'])
+        st_idx = []
+        for key, lean in sig['state_cells']:
+            f = self.rec_field(recname, key.split('.', 1)[1])
+            if f is None:
+                self.fail(s, 'the method assigns %s, which is not a field of the record %s' % (key, recname))
+            st_idx.append(f[0])
+        r = self.fresh('r')
+        out = '%slet %s := %s\n' % (ind, r, txt)
+        has_res = sig['can_raise'] or self.resolve(sig['ret_ty']) != UNIT
+        mu_src = (r + '.1') if (st_idx and has_res) else r
+        res_src = (r + '.2') if st_idx else r
+        env = dict(env)
+        if st_idx:
+            comps = []
+            for j in range(nfields):
+                if j in st_idx:
+                    comps.append(self.proj(mu_src, st_idx.index(j), len(st_idx)))
+                else:
+                    comps.append(self.proj(v.cell, j, nfields))
+            out += '%slet %s := %s\n' % (ind, v.cell, comps[0] if nfields == 1 else '(' + ', '.join(comps) + ')')
+            env[name] = Var(v.cell, v.ty, v.alias)
+
+        def bind_result(src, env2, ind2):
+            env2 = dict(env2)
+            if target is None:
+                return cont(env2, ind2)
+            return self.bind_target(target, src, sig['ret_ty'], env2, ind2) + cont(env2, ind2)
+        if not has_res:
+            return out + cont(env, ind)
+        if sig['can_raise']:
+            w = self.fresh()
+            return out + ('%sPy.caseE %s (fun e__ =>\n%s%s  ) (fun %s =>\n%s%s  )\n'
+                          % (ind, res_src, ctx.raise_('e__', env, ind + '    '), ind, w,
+                             bind_result(w, env, ind + '    '), ind))
+        return out + bind_result(res_src, env, ind)
+
+    def call_text(self, c, sig, env, recv=None):
+        """(Lean text of the call, [(param, argument key)] of the in/out arguments); `recv` = (cell, record name) when the
+        method is called on an object held as a record"""
         args = []
         inout = []
         rs = []
-        for (pn, pt), (pn2, a) in zip([p for p in sig['params'] if p[1] != 'skip'], self.bind_args(c, sig)):
+        given = [pa for pa in self.bind_args(c, sig) if dict(sig['params'])[pa[0]] not in ('skip', UNIT)]
+        for (pn, pt), (pn2, a) in zip([p for p in sig['params'] if p[1] not in ('skip', UNIT)], given):
             if pn != pn2:
                 self.fail(c, 'arguments do not line up with the parameters of the translated function')
             r = self.value(a, env, pt)
@@ -1434,6 +1862,12 @@ class PyFn(Fn):
             rs.append(r)
             args.append(r.txt)
         for nm, ty in sig['extra_params']:
+            if recv is not None and nm in sig['attr_cells']:
+                f = self.rec_field(recv[1], sig['attr_cells'][nm].split('.', 1)[1])
+                if f is None:
+                    self.fail(c, 'the method reads %s, which is not a field of the record %s' % (sig['attr_cells'][nm], recv[1]))
+                args.append(self.proj(recv[0], f[0], f[1]))
+                continue
             self.add_param(nm, ty)
             args.append(nm)
         for t in sig['tvars_used']:
@@ -1457,12 +1891,12 @@ class PyFn(Fn):
 
     def call_known_stmt(self, s, c, target, env, ctx, ind, cont):
         c = self.expand_star(c, env)
-        sig = self.known[ast.unparse(c.func)]['py']
+        sig = self.known_of(ast.unparse(c.func))['py']
         txt, inout = self.call_text(c, sig, env)
         if sig['can_raise']:
             self.raise_points += 1
         # the cells the call rebinds: in/out arguments, state attributes, the world
-        mu_keys = [k for _, k in inout] + list(sig['state']) + (['$world'] if sig['writes_world'] else [])
+        mu_keys = [k for _, k in inout] + self.map_state(sig) + (['$world'] if sig['writes_world'] else [])
         if sig['writes_world'] and not self.writes_world:
             self.fail(s, 'the callee writes the world but the spec does not declare writes_world')
         mu_vars = []
@@ -1515,72 +1949,169 @@ class PyFn(Fn):
                              bind_result(v, env, ind + '    '), ind))
         return out + bind_result(res_src, env, ind)
 
+    def static_test(self, node, env):
+        """True / False when the test is decided by the declared types (`x is None` for a parameter the caller leaves None,
+        or for a value of a type that has no None), else None"""
+        if isinstance(node, ast.Compare) and len(node.ops) == 1 and isinstance(node.ops[0], (ast.Is, ast.IsNot)) \
+                and isinstance(node.comparators[0], ast.Constant) and node.comparators[0].value is None:
+            k = self.key_of(node.left)
+            v = (env.get(k) or self.lookup(k, env)) if k else None
+            if v is None:
+                return None
+            t = self.resolve(v.ty)
+            if t[0] in ('opt', 'u'):
+                return None
+            res = (t == UNIT)
+            return res if isinstance(node.ops[0], ast.Is) else not res
+        if isinstance(node, ast.UnaryOp) and isinstance(node.op, ast.Not):
+            r = self.static_test(node.operand, env)
+            return None if r is None else not r
+        return None
+
+    def opt_guard(self, test, env):
+        """`X is not None [and REST]` / `X is None` for a variable X of an optional type: (key, REST nodes, negated)"""
+        first, rest = test, []
+        if isinstance(test, ast.BoolOp) and isinstance(test.op, ast.And):
+            first, rest = test.values[0], list(test.values[1:])
+        if isinstance(first, ast.Compare) and len(first.ops) == 1 and isinstance(first.ops[0], (ast.Is, ast.IsNot)) \
+                and isinstance(first.comparators[0], ast.Constant) and first.comparators[0].value is None:
+            k = self.key_of(first.left)
+            v = (env.get(k) or self.lookup(k, env)) if k else None
+            if v is not None and self.resolve(v.ty)[0] == 'opt':
+                neg = isinstance(first.ops[0], ast.Is)
+                if neg and rest:
+                    return None
+                return k, rest, neg
+        return None
+
     def if_stmt(self, s, env, ctx, ind, cont):
+        st = self.static_test(s.test, env)
+        if st is not None:
+            # decided by the declared calling pattern: only the live branch exists
+            return self.block(list(s.body if st else s.orelse), dict(env), ctx, ind, lambda e, i: cont(e, i))
+        g = self.opt_guard(s.test, env)
+        if g is not None:
+            key, rest, neg = g
+            v = env.get(key) or self.lookup(key, env)
+            inner = self.resolve(v.ty)[1]
+            env_some = dict(env)
+            env_some[key] = Var(v.cell, inner, v.alias)
+            some_stmts, none_stmts = (s.orelse, s.body) if neg else (s.body, s.orelse)
+            if rest:
+                rtest = rest[0] if len(rest) == 1 else ast.copy_location(ast.BoolOp(op=ast.And(), values=rest), s.test)
+                c = self.truth(rtest, env_some)
+                if c.raises:
+                    self.fail(s, 'a guarded test that may raise')
+                branches = [(list(none_stmts), dict(env)), (list(some_stmts), env_some), (list(s.orelse), dict(env_some))]
+
+                def wrap(b, i0):
+                    return ('%sOption.elim %s (\n%s%s  ) (fun %s =>\n%s  if %s then\n%s%s  else\n%s%s  )\n'
+                            % (i0, v.cell, b[0], i0, v.cell, i0, c.txt, b[1], i0, b[2], i0))
+                return self.branching(s, branches, wrap, env, ctx, ind, cont, depth=(2, 4, 4))
+            branches = [(list(none_stmts), dict(env)), (list(some_stmts), env_some)]
+
+            def wrap(b, i0):
+                return ('%sOption.elim %s (\n%s%s  ) (fun %s =>\n%s%s  )\n' % (i0, v.cell, b[0], i0, v.cell, b[1], i0))
+            return self.branching(s, branches, wrap, env, ctx, ind, cont, depth=(2, 2))
         c = self.truth(s.test, env)
 
         def use(ctxt, env1, ind1):
-            # first try to MERGE (no control leaves the branches); if something leaves, continue in both branches
-            before = self.nleave
-            keys = [k for k in self.assigned([s], env1) if k in env1 or k in self.pattrs or k == '$world']
-            if '$world' in keys:
-                keys = [k for k in keys if k != '$world'] + ['$world']
-            merged = None
-            if not self.diverts([s]):
-                envs = []
+            branches = [(list(s.body), dict(env1)), (list(s.orelse), dict(env1))]
 
-                def tail(env2, ind2):
-                    envs.append(env2)
-                    return ind2 + '\x00PACK%d\x00\n' % (len(envs) - 1)
-                b1 = self.block(s.body, dict(env1), ctx, ind1 + '    ', tail)
-                b2 = self.block(s.orelse, dict(env1), ctx, ind1 + '    ', tail)
-                if self.nleave == before and len(envs) == 2:
-                    # variables first bound in both branches (same type) are bound afterwards as well
-                    for k in self.assigned([s], env1):
-                        if k not in keys and all(k in e for e in envs) and re.fullmatch(r'\w+', k):
-                            try:
-                                self.unify(envs[0][k].ty, envs[1][k].ty, s)
-                                keys.append(k)
-                            except Untranslatable:
-                                pass
-                    env3 = dict(env1)
-                    for k in keys:
-                        if k == '$world':
-                            continue
-                        v0 = envs[0].get(k) or self.lookup(k, envs[0])
-                        v1 = envs[1].get(k) or self.lookup(k, envs[1])
-                        self.unify(v0.ty, v1.ty, s)
-                        if v0.cell != v1.cell:
-                            self.fail(s, 'a variable is bound to different containers in the two branches')
-                        env3[k] = Var(v0.cell, v0.ty, v0.alias | v1.alias)
-                    if not keys:
-                        return cont(env1, ind1)            # the branches have no effect the translation tracks
-                    wkeys = [k for k in keys if k != '$world']
-
-                    def packs(e):
-                        cells = [(e.get(k) or self.lookup(k, e)).cell for k in wkeys] + \
-                                ([self.world_var()] if '$world' in keys else [])
-                        return cells[0] if len(cells) == 1 else '(' + ', '.join(cells) + ')'
-                    b1 = b1.replace('\x00PACK0\x00', packs(envs[0]))
-                    b2 = b2.replace('\x00PACK1\x00', packs(envs[1]))
-                    st = self.fresh('st')
-                    out = '%slet %s := (if %s then\n%s%s  else\n%s%s  )\n' % (ind1, st, ctxt, b1, ind1, b2, ind1)
-                    n = len(keys)
-                    for i, k in enumerate(keys):
-                        cell = self.world_var() if k == '$world' else env3[k].cell
-                        out += '%slet %s := %s\n' % (ind1, cell, self.proj(st, i, n))
-                    merged = out + cont(env3, ind1)
-            if merged is not None:
-                return merged
-            b1 = self.block(s.body, dict(env1), ctx, ind1 + '  ', lambda e, i: cont(e, i))
-            b2 = self.block(s.orelse, dict(env1), ctx, ind1 + '  ', lambda e, i: cont(e, i))
-            return '%sif %s then\n%s%selse\n%s' % (ind1, ctxt, b1, ind1, b2)
+            def wrap(b, i0):
+                return '%sif %s then\n%s%selse\n%s' % (i0, ctxt, b[0], i0, b[1])
+            return self.branching(s, branches, wrap, env1, ctx, ind1, cont, depth=(1, 1))
         return self.bind_value(c, ctx, env, ind, use)
+
+    def branching(self, s, branches, wrap, env1, ctx, ind1, cont, depth):
+        """a conditional with the given branch bodies; `wrap(texts, indent)` assembles the Lean conditional.  First try to
+        MERGE (no control leaves the branches: the conditional is the value of the variables it assigns); if something leaves,
+        the rest of the block is continued in every branch"""
+        before = self.nleave
+        keys = [k for k in self.assigned([s], env1) if k in env1 or k in self.pattrs or k == '$world']
+        if '$world' in keys:
+            keys = [k for k in keys if k != '$world'] + ['$world']
+        if not self.diverts([s]):
+            envs = []
+
+            def tail(env2, ind2):
+                envs.append(env2)
+                return ind2 + '\x00PACK%d\x00\n' % (len(envs) - 1)
+            texts = [self.block(st, e, ctx, ind1 + '  ' * (d + 1), tail) for (st, e), d in zip(branches, depth)]
+            if self.nleave == before and len(envs) == len(branches):
+                # variables first bound in every branch are bound afterwards as well
+                for k in self.assigned([s], env1):
+                    if k not in keys and all(k in e for e in envs) and re.fullmatch(r'\w+', k):
+                        keys.append(k)
+                env3 = dict(env1)
+                wraps = {}
+                for k in keys:
+                    if k == '$world':
+                        continue
+                    vs = [e.get(k) or self.lookup(k, e) for e in envs]
+                    tys = [self.resolve(v.ty) for v in vs]
+                    opts = [t for t in tys if t[0] == 'opt']
+                    if opts and any(t[0] != 'opt' for t in tys):
+                        # None on one path, a value on another: an optional afterwards
+                        ty = opts[0]
+                        for i, t in enumerate(tys):
+                            if t[0] != 'opt':
+                                self.unify(ty[1], t, s)
+                                wraps[(k, i)] = True
+                            else:
+                                self.unify(ty, t, s)
+                    else:
+                        ty = tys[0]
+                        for t in tys[1:]:
+                            ty = self.unify(ty, t, s)
+                    if len({v.cell for v in vs}) != 1:
+                        self.fail(s, 'a variable is bound to different containers in the branches')
+                    al = frozenset()
+                    for v in vs:
+                        al |= v.alias
+                    env3[k] = Var(vs[0].cell, ty, al)
+                if not keys:
+                    return cont(env1, ind1)                # the branches have no effect the translation tracks
+                wkeys = [k for k in keys if k != '$world']
+
+                def packs(e, i):
+                    cells = [('(some %s)' if (k, i) in wraps else '%s') % (e.get(k) or self.lookup(k, e)).cell for k in wkeys] + \
+                            ([self.world_var()] if '$world' in keys else [])
+                    return cells[0] if len(cells) == 1 else '(' + ', '.join(cells) + ')'
+                texts = [t.replace('\x00PACK%d\x00' % i, packs(envs[i], i)) for i, t in enumerate(texts)]
+                st = self.fresh('st')
+                body = wrap(texts, ind1 + '  ')
+                out = '%slet %s := (\n%s%s  )\n' % (ind1, st, body, ind1)
+                n = len(keys)
+                for i, k in enumerate(keys):
+                    cell = self.world_var() if k == '$world' else env3[k].cell
+                    out += '%slet %s := %s\n' % (ind1, cell, self.proj(st, i, n))
+                return out + cont(env3, ind1)
+        texts = [self.block(st, e, ctx, ind1 + '  ' * d, lambda e2, i2: cont(e2, i2)) for (st, e), d in zip(branches, depth)]
+        return wrap(texts, ind1)
 
     def for_stmt(self, s, env, ctx, ind, cont):
         if s.orelse:
             self.fail(s, 'for … else')
-        src, et = self.iterable(s.iter, env)
-        keys = [k for k in self.assigned(s.body, env) if k in env or k in self.pattrs or k == '$world']
+        raw = self.assigned(s.body, env)
+        keys = [k for k in raw if k in env or k in self.pattrs or k == '$world']
+        # `for x in D.values():` whose body MUTATES the object x (a record): the loop runs over the positions of D and the
+        # mutated object is put back at its position (same keys, same order — what in-place mutation leaves in the dict)
+        upd = None
+        if isinstance(s.iter, ast.Call) and isinstance(s.iter.func, ast.Attribute) and s.iter.func.attr == 'values' \
+                and not s.iter.args and isinstance(s.target, ast.Name) and s.target.id in raw \
+                and self.key_of(s.iter.func.value) is not None:
+            dkey = self.key_of(s.iter.func.value)
+            dv = self.check_mutation(dkey, env, s)
+            dt = self.resolve(dv.ty)
+            if dt[0] != 'dict' or self.resolve(dt[2])[0] != 'rec':
+                self.fail(s, 'the loop variable is re-bound in the body of a loop over %s' % self.show(dt))
+            upd = dict(key=dkey, vty=dt[2], it=None, dflt=self.default(('tuple', (dt[1], dt[2])), s))
+            if dkey not in keys:
+                keys.append(dkey)
+            src, et = '(List.range (%s).length)' % dv.cell, NAT
+        else:
+            src, et = self.iterable(s.iter, env)
         wkeys = [k for k in keys if k != '$world']
         for k in wkeys:
             self.check_loop_var(k, env, s)
@@ -1588,6 +2119,9 @@ class PyFn(Fn):
 
         def packs(e):
             cells = [(e.get(k) or self.lookup(k, e)).cell for k in wkeys] + ([self.world_var()] if has_w else [])
+            if upd is not None and upd['it'] is not None and s.target.id in e:
+                j = wkeys.index(upd['key'])
+                cells[j] = '(Py.setVal %s %s %s)' % (cells[j], upd['it'], e[s.target.id].cell)
             if not cells:
                 return '()'
             return cells[0] if len(cells) == 1 else '(' + ', '.join(cells) + ')'
@@ -1613,7 +2147,17 @@ class PyFn(Fn):
             env2 = dict(env)
             i2 = ind + '    '
             head = unpack(st, env2, i2) if n else ''
-            head += self.bind_target(s.target, it, et, env2, i2)
+            if upd is not None:
+                upd['it'] = it
+                dcell = (env2.get(upd['key']) or self.lookup(upd['key'], env2)).cell
+                head += self.bind_target(s.target, '((%s).getD %s %s).2' % (dcell, it, upd['dflt']), upd['vty'], env2, i2)
+            else:
+                before = set(env2)
+                head += self.bind_target(s.target, it, et, env2, i2)
+                newly = {env2[k].cell for k in env2 if (k not in before or env2[k] is not env.get(k))
+                         and is_container(self.resolve(env2[k].ty))}
+                frozen_saved = set(self.frozen)
+                self.frozen |= newly
             if raising:
                 lctx = Ctx(self, lambda e, en, i: '%s(%s, some %s)\n' % (i, packs(en), e),
                            lambda node, en, i: self.fail(s, 'return inside a loop'),
@@ -1625,7 +2169,11 @@ class PyFn(Fn):
                 lctx = Ctx(self, boom, lambda node, en, i: self.fail(s, 'return inside a loop'),
                            lambda en, i: '%s%s\n' % (i, packs(en)))
                 tail = lambda en, i: '%s%s\n' % (i, packs(en))
-            txt = self.block(s.body, env2, lctx, i2, tail)
+            try:
+                txt = self.block(s.body, env2, lctx, i2, tail)
+            finally:
+                if upd is None:
+                    self.frozen = frozen_saved
             return st, it, head + txt
         try:
             st, it, btxt = body(False)
@@ -1637,6 +2185,8 @@ class PyFn(Fn):
             return cont(env, ind)                          # a loop without an effect the translation tracks
         r = self.fresh('r')
         env3 = dict(env)
+        if upd is not None:
+            upd['it'] = None                               # (the initial state is packed without a write-back)
         if raising:
             out = '%slet %s := Py.forE %s %s (fun (%s : %s) (%s : %s) =>\n%s%s  )\n' % (
                 ind, r, src, packs(env), st, ptype(), it, self.lty(et), btxt, ind)
@@ -1695,8 +2245,18 @@ def _translate_once(self):
         sig_params.append((a.arg, t))
         if t == 'skip':
             continue
+        if t == UNIT:
+            env[a.arg] = Var('()', UNIT)                   # the caller leaves it None: the function is specialised to that
+            continue
         env[a.arg] = Var(lname(a.arg), t)
         params.append('(%s : %s)' % (lname(a.arg), self.lty(t)))
+    # locals that are live at `start_at` (filled by the untranslated statements before it): parameters
+    for nm, t in self.spec.get('free_locals', {}).items():
+        if not self.start_at:
+            raise Untranslatable('%s: free_locals without start_at' % self.spec['func'])
+        ty = self.T(t)
+        env[nm] = Var(lname(nm), ty)
+        params.append('(%s : %s)' % (lname(nm), self.lty(ty)))
     declared = [p for p in self.ptypes if p not in [a.arg for a in node.args.args]]
     if declared:
         raise Untranslatable('%s: declared parameter(s) %s no longer in the signature' % (self.spec['func'], declared))
@@ -1771,7 +2331,19 @@ def _translate_once(self):
             return '%sExcept.ok %s\n' % (ind, vtxt)
         return '%s%s\n' % (ind, vtxt)
     ctx = Ctx(self, f_raise, f_ret)
-    body = self.block(list(node.body), env, ctx, '  ', lambda en, ind: ctx.ret(None, en, ind))
+    stmts = list(node.body)
+    if self.start_at:
+        rx, occ = (self.start_at, None) if isinstance(self.start_at, str) else self.start_at   # (regex, which occurrence)
+        idx = [i for i, st in enumerate(stmts) if re.fullmatch(rx, ast.unparse(st), re.S)]
+        if (occ is None and len(idx) != 1) or (occ is not None and not -len(idx) <= occ < len(idx)):
+            raise Untranslatable('%s: start_at matches %d statements' % (self.spec['func'], len(idx)))
+        stmts = stmts[idx[0 if occ is None else occ]:]                             # what comes before (I/O that fills the declared cells) is not translated
+    if self.stop_at:
+        idx = [i for i, st in enumerate(stmts) if re.fullmatch(self.stop_at, ast.unparse(st), re.S)]
+        if len(idx) != 1:
+            raise Untranslatable('%s: stop_at matches %d statements' % (self.spec['func'], len(idx)))
+        stmts = stmts[:idx[0] + 1]
+    body = self.block(stmts, env, ctx, '  ', lambda en, ind: ctx.ret(None, en, ind))
     rt = self.resolve(self.ret_ty)
     if rt[0] == 'u':
         raise Untranslatable('%s: the result type could not be determined' % self.spec['func'])
@@ -1797,6 +2369,8 @@ def _translate_once(self):
         writes_world=self.writes_world, can_raise=self.can_raise, ret_ty=rt, mu=bool(mu_keys),
         extra_params=[(n, self.fill(t)) for n, t in self.extra_params], ret_alias=dict(self.ret_alias),
         property=bool(self.spec.get('property')),
+        state_cells=[(k, self.pattrs[k][0]) for k in self.state],
+        attr_cells={nm: k for k, (nm, _) in self.pattrs.items()},
         tvars_used=list(self.used_tvars)))
     return 'def %s %s%s%s : %s :=\n%s' % (self.spec.get('lean', self.spec['func']), tvs, head_params, extra, rty, body)
 
